@@ -82,5 +82,15 @@ CHECKS = {
              "float differences inside the Brent port are declined (listed in the evidence).",
         technique="static analysis: typed-IR narrowing stores + clip recognition on normal forms, call-graph raise-freedom, CFG division guards",
     ),
+    "C10": dict(
+        category=OTHER,
+        text="Pair coverage of mk_score / mk_sens_slope (affine), the formulas of S, tau, Var(S) with tie groups, continuity-corrected Z, two-sided p, h and Sen's slope "
+             "as rational normal forms against the statement, the trend-flag decision table (identical in the 1-d and 3-d drivers), the use-shape rule (the series is read "
+             "only through pairwise <, >, == of its own elements, unique and len => invariance under strictly increasing maps), oddness of Z and |Z|-dependence of p/h, "
+             "the all-nodata arm (nodata x3, -2), output order, site binding and declared dtypes.",
+        note="Trusted: a function that reads a sequence only through pairwise comparisons is invariant under strictly increasing maps; np.unique/np.nanmedian semantics. "
+             "float32 rounding of stored statistics is declined.",
+        technique="static analysis: normal-form equality against the statement's formulas, use-shape (syntactic context) rule, sibling decision tables",
+    ),
 }
 NOT_APPLICABLE = {}
